@@ -37,6 +37,10 @@ fn main() {
             let hist = arg(&args, "--histories", "");
             checks::generate(&prop, &tier, seed, &out, shards, if hist.is_empty() { None } else { Some(hist.as_str()) });
         }
+        "macros" => {
+            let from: usize = args[4].parse().unwrap_or(0);
+            checks2::macros_child(&args[2], &args[3], from);
+        }
         "chain" => {
             let d: usize = args[2].parse().unwrap_or(1);
             checks2::chain_child(d);
